@@ -208,6 +208,8 @@ pub fn run_c14(e: &Engine) -> i32 {
     let rec = Recorder::new("C14", e.tier);
     let ks = first_report_pass(e, &rec, "C14");
     direct_sweep(&rec);
+    // the messages must not depend on what was described before on the same thread
+    crate::history::run_history(e, &rec, "C14", &|r| e.cat.ty_generic(&r.ty), true);
     rec.set_extra("error_kinds_seen_(error type:kind:depth)", json!(ks));
     finish_c14(&rec)
 }
@@ -282,7 +284,17 @@ pub fn first_report_pass(e: &Engine, rec: &Recorder, prop: &str) -> Vec<String> 
                             let r = std::panic::catch_unwind(|| run(Src::Json, doc));
                             let _ = end();
                             execs += 1;
-                            let Ok(r) = r else { continue };
+                            let Ok(r) = r else {
+                                // no message at all: the error type panicked while describing the report
+                                rec.violation(Violation {
+                                    property: prop.into(),
+                                    subject: subject.clone(),
+                                    message: format!("{} panicked instead of returning a result\n  payload: {}", if query { "deserialize with QueryParamError" } else { "deserialize with JsonError" }, doc.text()),
+                                    replay: json!({"kind": "message", "root": ri, "type": tystr, "query": query, "payload": doc_to_tagged(doc)}),
+                                });
+                                bad += 1;
+                                continue;
+                            };
                             let err: Option<String> = match (&r, first) {
                                 (Ok(v), None) => {
                                     if keep.result.as_ref().ok() != Some(v) {
